@@ -722,6 +722,8 @@ template <class K> Result execMatVS(const std::string& op, const std::vector<std
   bool amod = false, bmod = false, ran = false, bres = false;
   Full<K> got;
   bool inplace = op == "madd" || op == "msub" || op == "mscale" || op == "mdiv" || op == "maxpy";
+  std::vector<K> storedAfter;
+  bool haveStored = false;
   if (two) {
     auto body = [&](auto& MA, auto& MB) {
       using TA = std::decay_t<decltype(MA)>;
@@ -759,7 +761,9 @@ template <class K> Result execMatVS(const std::string& op, const std::vector<std
       else if (op == "mdiv") { auto& R = (MA /= s); got = readMat<K>(R); ran = (&R == &MA); }
       else if constexpr (!IsDiag<TA>::value) {
         if (op == "mneg") {
-          if constexpr (!IsSV<TA>::value) { auto R = -std::as_const(MA); got = readMat<K>(R); ran = true; }   // (a view cannot be returned by value)
+          auto R = -std::as_const(MA); got = readMat<K>(R); ran = true;
+          // a scalar view: what the viewed scalar holds after the call is part of the answer
+          if constexpr (IsSV<TA>::value) { storedAfter = {MA[0][0]}; haveStored = true; }
         } else if constexpr (Dune::Impl::IsFieldMatrix_v<TA>) {
           if (op == "mtimes") { auto R = std::as_const(MA) * s; got = readMat<K>(R); ran = true; }
           else if (op == "mltimes") { auto R = s * std::as_const(MA); got = readMat<K>(R); ran = true; }
@@ -772,7 +776,13 @@ template <class K> Result execMatVS(const std::string& op, const std::vector<std
   stat("op_" + op); stat(op + "_" + A.rep + (two ? "," + B.rep : ""));
   std::string note = bmod || (!inplace && amod) ? "operand modified" : "";
   if (cmp) return boolResult(bres, op == "meq" ? eqExpect : !eqExpect, note);
-  return matResult<K>(got, expect, note);
+  Result res = matResult<K>(got, expect, note);
+  if (haveStored) {
+    bool ok = true;
+    res.impl += " stored=" + encList<K>(storedAfter, ok);
+    if (res.oracle == "ok" && storedAfter != A.e) res.oracle = "FAIL the scalar behind the view is " + encList<K>(storedAfter, ok) + " after the call, it was " + encList<K>(A.e, ok) + " (operand modified)";
+  }
+  return res;
 }
 
 // ---- vector-space operations on vectors ------------------------------------------------------------------------------
@@ -836,6 +846,21 @@ template <class K> Result execVec(const std::string& op, const std::vector<std::
   bool scalarOut = op == "vdotT" || op == "vdot" || op == "fdot" || op == "fdotT" || op == "v1_conv";
   if (a.kind == "SC") {
     // free functions on plain scalars
+    if (op == "vneg" && !two) {
+      // unary minus of the view asVector(s): the result and what the scalar s holds afterwards
+      K s0 = a.e[0];
+      auto V = Dune::Impl::asVector(s0);
+      auto R = -std::as_const(V);
+      got = readVec<K>(R, 1);
+      K shown = V[0];
+      if (!(shown == s0)) viewIncoherent() = true;
+      bool ok = true;
+      stat("op_vneg"); stat("vneg_SC"); stat("vsize_1");
+      Result res = vecResult<K>(got, expect, "");
+      res.impl += " stored=" + encList<K>(std::vector<K>{s0}, ok);
+      if (res.oracle == "ok" && !(s0 == a.e[0])) res.oracle = "FAIL the scalar behind the view is " + encList<K>(std::vector<K>{s0}, ok) + " after the call, it was " + encList<K>(a.e, ok) + " (operand modified)";
+      return res;
+    }
     if (!two || b.kind != "SC") return badOp("scalar operands");
     K x = a.e[0], y = b.e[0];
     if (op == "fdot") { got = {Dune::dot(x, y)}; ran = true; }
@@ -1306,9 +1331,12 @@ inline bool opOk(const std::vector<Decl>& d, const Op& o) {
   if (!in(o.t) || d[o.t].isTV) return false;
   const Decl& T = d[o.t];
   if (o.kind == oFill || o.kind == oScale) return T.isVec ? T.tag != vSCC : T.tag != mSVC;
-  if (!in(o.s) || o.s == o.t || d[o.s].isTV) return false;
+  if (!in(o.s) || d[o.s].isTV) return false;
   const Decl& S = d[o.s];
+  // o.s == o.t: the object is its own argument (`A += A`, `A = A`, `A.axpy(k, A)`, `A.leftmultiply(A)`, `A.rightmultiply(A)`);
+  // the definition is evaluated on the entries the object holds when the call is made
   if (o.kind == oRasg || o.kind == oRaxpy) {
+    if (o.s == o.t) return false;
     if (T.isVec || S.isVec || T.tag == mDG2 || S.tag == mDG2) return false;
     if (o.i < 0 || o.i >= T.r || o.j < 0 || o.j >= S.r || T.c != S.c) return false;
     return vecPairOk(o.kind == oRasg ? oAsg : oAxpy, rowTag(T.tag), rowTag(S.tag));
@@ -1473,6 +1501,7 @@ template <class K> Result exec(const std::vector<std::string>& w, const std::str
         else if (o.kind == oLmul) T = mulOracle<K>(S, Full<K>(T));
         else if (o.kind == oRmul) T = mulOracle<K>(Full<K>(T), S);
         stat("seq" + o.name + "_" + decl[o.t].kind + "," + decl[o.s].kind);
+        if (o.s == o.t) stat("seqself_" + o.name);
       }
     }
     // -- the real call
@@ -1748,6 +1777,24 @@ static std::string genSeq(Rng& r, Gen& g) {
     int nops = 1 + (int)r.below(8), made = 0;
     const int n = (int)d.size();
     std::ostringstream ops;
+    // bound of the absolute value of the components every object can hold (generated components are within +-5): operations
+    // that could leave the range in which int / double arithmetic is exact are not generated (repeated squaring grows fast)
+    std::vector<double> mag(d.size(), 5.0);
+    const double cw = g.K == 'C' ? 2.0 : 1.0, magLimit = g.K == 'P' ? 1e300 : 2e8;
+    auto magOf = [&](int i) { return d[i].isTV ? mag[d[i].wraps] : mag[i]; };
+    auto newMag = [&](const Op& o) {
+      if (o.kd) { const Decl& A = d[o.a]; return magOf(o.y) + cw * 5.0 * cw * std::max(A.r, A.c) * magOf(o.a) * magOf(o.x); }
+      switch (o.kind) {
+        case oAsg: return magOf(o.s);
+        case oFill: return 5.0;
+        case oAdd: case oSub: return magOf(o.t) + magOf(o.s);
+        case oAxpy: case oRaxpy: return magOf(o.t) + cw * 5.0 * magOf(o.s);
+        case oScale: return cw * 5.0 * magOf(o.t);
+        case oLmul: case oRmul: return cw * std::max(d[o.t].r, d[o.t].c) * magOf(o.t) * magOf(o.s);
+        case oRasg: return std::max(magOf(o.t), magOf(o.s));
+      }
+      return magOf(o.t);
+    };
     for (int i = 0; i < nops; ++i) {
       for (int attempt = 0; attempt < 12; ++attempt) {
         // draw the operation, then one of the operand tuples it is executed for
@@ -1770,12 +1817,22 @@ static std::string genSeq(Rng& r, Gen& g) {
             }
         }
         if (cand.empty()) continue;
+        if (!o.kd && r.coin(1, 5)) {   // the object as its own argument
+          std::vector<Op> selfs;
+          for (auto& q : cand) if (q.s == q.t && q.kind != oFill && q.kind != oScale) selfs.push_back(q);
+          if (!selfs.empty()) cand = selfs;
+        }
         if (o.kd && r.coin()) {   // prefer a view as the matrix operand when one is available
           std::vector<Op> views;
           for (auto& q : cand) if (d[q.a].isTV) views.push_back(q);
           if (!views.empty()) cand = views;
         }
         o = cand[r.below(cand.size())];
+        {
+          double m = newMag(o);
+          if (m > magLimit) { stat("gen_seq_magnitude_skip"); continue; }
+          mag[o.kd ? o.y : o.t] = m;
+        }
         std::ostringstream t;
         if (o.kd) t << o.kd->name << " " << o.a << " " << g.scalars(1) << " " << o.x << " " << o.y;
         else if (o.kind == oFill || o.kind == oScale) t << o.name << " " << o.t << " " << g.scalars(1);
@@ -1939,7 +1996,6 @@ static std::string genOnce(Rng& rng) {
     bool fmOnly = op == "mplus" || op == "mminus" || op == "mtimes" || op == "mltimes" || op == "mover";
     std::string ra = fmOnly ? "FM" : r.pick(std::vector<std::string>{"FM", "FM", "DM", "DM", "DG", "SV"});
     if (ra == "DG" && (op == "maxpy" || op == "mneg")) ra = "FM";
-    if (ra == "SV" && op == "mneg") ra = "DM";
     std::string rb = ra;
     if (two && !fmOnly && ra != "DG") rb = r.pick(std::vector<std::string>{"FM", "DM", ra});
     if (ra == "SV" && rb != "SV") rb = r.coin() ? "FM" : "DM";
@@ -1988,6 +2044,7 @@ static std::string genOnce(Rng& rng) {
     std::string kb = r.coin() ? "FV" : "DV";
     int n = one ? 1 : ka == "FV" || (two && kb == "FV") ? 1 + (int)r.below(4) : 1 + (int)r.below(6);
     if ((op == "fdot" || op == "fdotT") && r.coin(1, 3)) { ka = kb = "SC"; n = 1; }
+    if (op == "vneg" && r.coin(1, 3)) { ka = "SC"; n = 1; }   // unary minus of the view asVector(s)
     bool div = op == "vdiv" || op == "vover" || op == "v1_over_s" || op == "s_over_v1";
     std::string aStr, sStr = g.scalars(1);
     if (div) {
